@@ -923,6 +923,46 @@ def _worker(args):
     return _export(sub)
 
 
+ENUM_SCOPES = ['G', 'C:0', 'S:/', 'C:1', 'S:/a', 'H:1.default', 'C:2', 'S:/a/b', 'H:2.index', 'S:/ab', 'S:/a/x',
+               'H:1.index']
+ENUM_PATHS = ['/', '/a', '/a/', '/a/b', '/a/b/', '/a/x', '/ab', '/a/b/x/y', '/a/x/y']
+
+
+def enum_scope_case(bits):
+    """Exhaustive small scope: chain root -a-> n1 -b-> n2; every subset of 12 scopes sets k1 (to the scope's
+    name) and tools.p1.on (alternating truth values)."""
+    def conf(i):
+        name = ENUM_SCOPES[i]
+        return {'k1': name, 'tools.p1.on': (i % 2 == 0), 'tools.p1.x': name}
+
+    def nd(**k):
+        d = {'exp': None, 'call': None, 'falsy': False, 'meth': [], 'vals': [], 'kids': [], 'disp': None, 'conf': None}
+        d.update(k)
+        return d
+    on = [bool(bits >> i & 1) for i in range(len(ENUM_SCOPES))]
+    c = {ENUM_SCOPES[i]: conf(i) for i in range(len(ENUM_SCOPES)) if on[i]}
+
+    def meth(name, key):
+        m = {'exp': True}
+        if key in c:
+            m['conf'] = c[key]
+        return [name, m]
+    nodes = [nd(meth=[meth('index', '-')], kids=[['a', 1]], conf=c.get('C:0')),
+             nd(meth=[meth('index', 'H:1.index'), meth('default', 'H:1.default')], kids=[['b', 2]], conf=c.get('C:1')),
+             nd(meth=[meth('index', 'H:2.index')], conf=c.get('C:2'))]
+    sections = {k[2:]: v for k, v in c.items() if k.startswith('S:')}
+    return {'tree': {'nodes': nodes}, 'kind': 'D', 'sections': sections, 'glob': c.get('G', {}), 'ini': bits % 3 == 0,
+            'reqs': [(p, 'GET') for p in ENUM_PATHS]}
+
+
+def _worker_enum(args):
+    lo, hi = args
+    sub = common.Ctx(__import__('harness.c08', fromlist=['x']), 'thorough', 0)
+    sub.lean = _WORKER_LEAN[0]
+    check_config_cases(sub, [enum_scope_case(b) for b in range(lo, hi)])
+    return _export(sub)
+
+
 def run(ctx):
     for e in ctx.known:
         if e.get('witness'):
@@ -939,6 +979,12 @@ def run(ctx):
     jobs = [(ctx.rng.randrange(1 << 30), 500) for _ in range(32)]
     for res in common.parallel_map(_worker, jobs):
         c02._merge(ctx, res)
+    total = 1 << len(ENUM_SCOPES)
+    step = total // 32
+    for res in common.parallel_map(_worker_enum, [(lo, lo + step) for lo in range(0, total, step)]):
+        c02._merge(ctx, res)
+    ctx.extra['exhaustive'] = True
+    ctx.extra['exhaustive_scope_assignments'] = total
 
 
 def search(ctx, around=None):
